@@ -35,7 +35,7 @@ ASSUMPTIONS = [
 ]
 SHARDS = {'quick': 1, 'thorough': 4}
 TIMEOUT = {'quick': 900, 'thorough': 1800}
-FLOORS = {'denials_checked': 600, 'routes_enumerated': 60, 'allowed_mutations_observed': 10, 'ownership_denials_checked': 20,
+FLOORS = {'container_log_requests_checked': 1500, 'container_log_requests_that_reached_a_worker_or_the_store': 16, 'denials_checked': 600, 'routes_enumerated': 60, 'allowed_mutations_observed': 10, 'ownership_denials_checked': 20,
           'listing_responses_scanned': 150, 'records_in_listings_checked': 300, 'listings_with_foreign_jobs_in_matching_state': 40, 'revoked_member_requests_checked': 60}
 
 # search terms for the listing routes: v1 (bare words, multi-state words, negations) and v2 (state / comparison expressions)
@@ -161,6 +161,109 @@ async def listing_phase(ctx, w, fe, base_state, batches, routes):
             aiohttp_jinja2.render_template = old
 
 
+async def log_phase(ctx, w, fz, fe, base_state, batches):
+    """Content oracle for "logs": the three tenants' jobs run side by side on ONE worker VM (and later have their logs in the
+    same bucket).  The fake worker and the fake log store answer by the location actually asked for, after the dot-segment
+    normalisation every HTTP client / object store path applies, with a marker naming the batch whose log lives there.  Whatever
+    {container} the caller puts into /batches/{batch_id}/jobs/{job_id}/log/{container}, the answer may never carry the marker
+    of a batch whose billing project the caller does not belong to."""
+    import posixpath
+    import urllib.parse
+
+    from yarl import URL
+
+    w.engine.load_state(base_state)
+    readers = {batches['own']: {'alice', 'bob'}, batches['shared']: {'alice', 'bob'}, batches['foreign']: {'bob'}, batches['deleted']: set()}
+    asked = []
+
+    def marker(bid):
+        return f'<<LOG-OF-BATCH-{bid}>>'.encode()
+
+    async def get_read(url, **kw):
+        path = posixpath.normpath(urllib.parse.unquote(URL(url, encoded=True).raw_path))
+        asked.append(('worker', path))
+        m = re.fullmatch(r'/api/v1alpha/batches/(\d+)/jobs/(\d+)/log/(input|main|output)', path)
+        if m is None:
+            raise __import__('aiohttp').ClientResponseError(None, (), status=404, message='no such log')
+        return marker(int(m.group(1)))
+
+    async def read_log_file(format_version, batch_id, job_id, attempt_id, task):
+        path = posixpath.normpath(f'/logs/{batch_id}/{job_id}/{attempt_id}/{task}/log')
+        asked.append(('store', path))
+        m = re.fullmatch(r'/logs/(\d+)/(\d+)/([^/]+)/(input|main|output)/log', path)
+        if m is None:
+            raise FileNotFoundError(path)
+        return marker(int(m.group(1)))
+    w.session.get_read = get_read
+    w.fe_app['file_store'].read_log_file = read_log_file
+    fe.app['file_store'].read_log_file = read_log_file
+    await w.create_instance('standard', cores=16)
+    fz.cfg.update({'worker_reject_p': 0, 'fault_schedule_db_p': 0, 'early_job_started_p': 0})
+    await w.pools['standard'].scheduler.schedule_loop_body()
+    await fz._drain()
+    fz.sync_attempts_from_db()
+    callers = {'owner': 'alice', 'member': 'bob', 'stranger': 'carol', 'developer': 'dev'}
+
+    def containers(victim, victim_attempt):
+        out = ['main', 'input', 'output', 'mainx', 'main.bak', 'maintenance', 'inputs', 'output2', 'Main', 'main%20', '..', 'main%2F..%2Fmain', 'main%252F..']
+        for n in range(1, 8):
+            up = '%2F'.join(['..'] * n)
+            out.append(f'main%2F{up}%2F{victim}%2Fjobs%2F1%2Flog%2Fmain')          # worker URL namespace
+            out.append(f'{up}%2F{victim}%2Fjobs%2F1%2Flog%2Fmain')
+            out.append(f'main%2F{up}%2F{victim}%2F1%2F{victim_attempt}%2Fmain')    # log store namespace
+            out.append(f'output%2F{up}%2Fbatches%2F{victim}%2Fjobs%2F1%2Flog%2Fmain')
+        return out
+    for stage in ('running-on-a-shared-worker', 'complete-logs-in-the-store'):
+        if stage.startswith('complete'):
+            for a in list(fz.attempts.values()):
+                row = w.engine.tables['attempts'].pk_get(a['batch_id'], a['job_id'], a['attempt_id'])
+                if row is not None and row['end_time'] is None:
+                    now = w.now_ms()
+                    st = {'batch_id': a['batch_id'], 'job_id': a['job_id'], 'attempt_id': a['attempt_id'], 'job_group_id': a.get('job_group_id', 0), 'state': 'succeeded',
+                          'start_time': now, 'end_time': now + 1, 'status': {}, 'resources': []}
+                    await w.dm.job_complete(fz._worker_request(fz._instance_of(a), {'status': st}))
+        T = w.engine.tables
+        states = {name: (T['jobs'].pk_get(batches[name], 1) or {}).get('state') for name in ('own', 'shared', 'foreign')}
+        ctx.seen('log_phase_job_states', f'{stage}: {sorted(set(states.values()))}')
+        want = 'Running' if stage.startswith('running') else 'Success'
+        if any(v != want for v in states.values()):
+            ctx.count('log_phase_setup_failed')
+            continue
+        state = w.engine.save_state()
+        for tname in ('own', 'shared', 'foreign'):
+            bid = batches[tname]
+            for vname in ('own', 'shared', 'foreign'):
+                if vname == tname:
+                    continue
+                victim = batches[vname]
+                vatt = T['jobs'].pk_get(victim, 1)['attempt_id']
+                for caller, uname in callers.items():
+                    for c in containers(victim, vatt):
+                        w.engine.load_state(state)
+                        del asked[:]
+                        url = f'/api/v1alpha/batches/{bid}/jobs/1/log/{c}'
+                        try:
+                            resp = await fe.request('GET', url, token='tok-' + caller)
+                            status, body = resp.status, (resp.text_ or '').encode()
+                        except Unsupported as e:
+                            raise Inconclusive('minimysql unsupported: ' + str(e))
+                        except Exception as e:
+                            ctx.seen('log_phase_exceptions', f'{type(e).__name__}: {str(e)[:80]}')
+                            continue
+                        ctx.count('container_log_requests_checked')
+                        ctx.seen('container_log_status', f'{stage}:{status}')
+                        if asked:
+                            ctx.count('container_log_requests_that_reached_a_worker_or_the_store')
+                        case = {'stage': stage, 'url': url, 'caller': caller, 'target': tname, 'victim': vname, 'status': status, 'asked': list(asked)}
+                        ctx.case(sample=case, key=('log', stage, tname, vname, caller, c), nontrivial=True)
+                        for rb in readers:
+                            if marker(rb) in body and uname not in readers[rb]:
+                                ctx.violation('response-leaks-log-of-unreadable-batch',
+                                              f'GET {url} answered caller {caller} ({uname}) with the log of batch {rb} ({stage}; asked {asked}), whose billing project {uname} does not belong to', case)
+                        if status == 200 and uname not in readers[bid]:
+                            ctx.violation('access-granted/non-member', f'GET {url} answered 200 to {caller} ({uname})', case)
+
+
 async def revocation_phase(ctx, w, fe, base_state, own, routes):
     """Membership is judged at the time of the request: bob (member of bp-a) touches alice's batch, a developer removes bob
     from bp-a through the real administration route, and from then on every batch-scoped request of bob must be denied and
@@ -219,7 +322,7 @@ def run(ctx):
     async def main(loop):
         w = World(seed=ctx.seed, loop=loop, n_tokens=2)
         await w.boot()
-        Fuzzer(w, __import__('random').Random(1), {})  # installs the worker / resource-manager fakes
+        fz = Fuzzer(w, __import__('random').Random(1), {})  # installs the worker / resource-manager fakes
         fe = FrontEnd(w)
         a = fe.auth_service
         ud = {
@@ -360,6 +463,7 @@ def run(ctx):
                             ctx.count('allowed_mutations_observed')
         await listing_phase(ctx, w, fe, base_state, {'own': own, 'shared': shared, 'foreign': foreign, 'deleted': deleted}, routes)
         await revocation_phase(ctx, w, fe, base_state, own, routes)
+        await log_phase(ctx, w, fz, fe, base_state, {'own': own, 'shared': shared, 'foreign': foreign, 'deleted': deleted})
         await w.shutdown()
     run_virtual(main, max_steps=20_000_000)
     ctx.exhaustive = False
